@@ -3,6 +3,7 @@
 set -e
 cd "$(dirname "$0")"
 export CARGO_NET_OFFLINE=true
+python3 tools/gen_driver.py
 python3 tools/extract_tables.py
 (cd lean && lake build BsVerif bsmodel)
 (cd harness && cargo build)
